@@ -98,7 +98,7 @@ def check_c01(run):
     run.cov["shapes"] = len(shapes)
     run.cov["dispatch_table_rows"] = ntab
     if quick:
-        shapes = rng.sample(shapes, 2600)
+        shapes = rng.sample(shapes, 3400)
     draws = 4 if quick else 30
     sessions = [{"id": i + 1, "seed": run.seed * 7919 + i, "draws": draws, "tokens": s["tokens"], "tree": s["tree"], "tables": tables}
                 for i, s in enumerate(shapes)]
